@@ -35,3 +35,23 @@ func VH_vlq_decode_robust() {
 	vObserve("rd", uint64(rd))
 	vReach("end")
 }
+
+// C15(5) robustness: deserializeUtxoEntry on every byte string of length <= N never panics.
+//verif:opts reach=end par=8 override=decompressTxOutAmount:vStubAmount
+func VH_utxo_decode_robust() {
+	max := 12
+	if vTier() == 1 {
+		max = 16
+	}
+	n := vNondetLen("len", max)
+	b := vNondetBytes("ser", n)
+	e, err := deserializeUtxoEntry(b)
+	if err == nil {
+		vAssert(e != nil, "nil error implies an entry")
+	}
+	vReach("end")
+}
+
+// the amount decompression kernel (64-bit div/mod by 10) is decided separately in amount.go;
+// inside byte-parsing harnesses it is replaced by an arbitrary value.
+func vStubAmount(x uint64) uint64 { return vNondetU64("stub.amount") }
